@@ -231,7 +231,7 @@ impl Exec {
             blobs: Vec::new(),
         };
         for l in &h.objs {
-            let obj = catch(|| kinds::alloc(&h.kind, l)).map_err(|p| format!("alloc({}, {:?}) panicked: {p}", h.kind, l))?;
+            let obj = catch(|| kinds::alloc(&h.kind, l)).map_err(|p| format!("INADMISSIBLE alloc({}, {:?}) panicked: {p}", h.kind, l))?;
             let mut st = ObjState {
                 obj,
                 info: RecvInfo::default(),
